@@ -36,7 +36,7 @@ for mid in ids:
       results[mid] = {'applies': False, 'detail': (p.stdout + p.stderr)[-300:]}
       print(mid, 'PATCH DOES NOT APPLY')
       continue
-    env = dict(os.environ, GINSIM_REPO=scratch)
+    env = dict(os.environ, GINSIM_REPO=scratch, GINSIM_REPLAYS=os.path.join(scratch, '_replays'))
     cmd = [os.path.join(HERE, 'check'), prop, '--tier', 'quick', '--no-evidence']
     if runs:
       cmd += ['--runs', runs]
